@@ -538,7 +538,7 @@ func selInstr(name string, in ssa.Instruction) Sel {
 // ---------------------------------------------------------------------------
 // ACK
 
-func inLoop_quicb(in ssa.Instruction) bool {
+func inLoop(in ssa.Instruction) bool {
 	b := in.Block()
 	// b is in a cycle iff it can reach itself
 	seen := map[*ssa.BasicBlock]bool{}
@@ -582,7 +582,7 @@ func c28Ack(c *Ctx) {
 				continue
 			}
 			switch {
-			case inLoop_quicb(e.in):
+			case inLoop(e.in):
 				loop = append(loop, e)
 			case len(loop) == 0:
 				pre = append(pre, e)
@@ -609,7 +609,7 @@ func c28Ack(c *Ctx) {
 		// the range count read bounds the loop
 		foundStop := false
 		for _, b := range r.Blocks {
-			if ifi, ok := b.Instrs[len(b.Instrs)-1].(*ssa.If); ok && inLoop_quicb(ifi) {
+			if ifi, ok := b.Instrs[len(b.Instrs)-1].(*ssa.If); ok && inLoop(ifi) {
 				if bo, ok := ifi.Cond.(*ssa.BinOp); ok && bo.Op == token.EQL {
 					if XResultOfCall(rpre[2].in, 0)(bo.X) || XResultOfCall(rpre[2].in, 0)(bo.Y) {
 						// the stop test sits between the two in-loop reads
@@ -845,7 +845,7 @@ func c28ConsumeGuards(c *Ctx) {
 	if fn := c.MustFn(f); fn != nil {
 		var loopReads []wireEv
 		for _, e := range readerEvents(fn) {
-			if inLoop_quicb(e.in) {
+			if inLoop(e.in) {
 				loopReads = append(loopReads, e)
 			}
 		}
